@@ -68,6 +68,8 @@ type genC03 struct {
 	quota    int
 	nBig     int
 	queue    []memsim.Op // follow-ups of an operation just drawn (reads of a large manifest, ...)
+	alg      bool        // the registry is algstore: blobs are pushed under sha256 / sha384 / sha512 digests
+	listy    bool        // more tags, more listings
 }
 
 func pickN(r *rand.Rand, from []string, n int) []string {
@@ -79,12 +81,134 @@ func pickN(r *rand.Rand, from []string, n int) []string {
 	return out
 }
 
-func newGenC03(r *rand.Rand, ill bool) *genC03 {
+func newGenC03(r *rand.Rand, ill bool, flavour string) *genC03 {
 	g := memsim.NewGen(r, false)
 	g.Repos = append(pickN(r, routingRepos, 2+r.Intn(2)), pickN(r, plainRepos, 1)...)
 	g.Tags = append(pickN(r, routingTags, 2), pickN(r, plainTags, 1)...)
-	return &genC03{r: r, g: g, ex: memsim.NewExec(ocimem.New(), true), ill: ill, media: r.Intn(3) == 0}
+	c := &genC03{r: r, g: g, ill: ill, media: r.Intn(3) == 0}
+	switch flavour {
+	case "alg":
+		c.alg, c.media = true, false
+		c.ex = memsim.NewExec(newAlgStore(), true)
+		// contents that do not fit one chunk of the backend (8 KiB) or of a small read buffer
+		g.Contents = append(g.Contents, pad([]byte("alg-"), 9000+r.Intn(100), byte('a'+r.Intn(20))), pad([]byte("alg+"), 600+r.Intn(100), byte('a'+r.Intn(20))))
+	case "listy":
+		c.listy = true
+		g.Tags = append(pickN(r, routingTags, 3+r.Intn(3)), pickN(r, plainTags, 1+r.Intn(2))...)
+		g.Repos = append(pickN(r, routingRepos, 3+r.Intn(3)), pickN(r, plainRepos, 1+r.Intn(2))...)
+		c.ex = memsim.NewExec(ocimem.New(), true)
+	default:
+		c.ex = memsim.NewExec(ocimem.New(), true)
+	}
+	return c
 }
+
+var algNames = []digest.Algorithm{digest.SHA256, digest.SHA384, digest.SHA512}
+
+func (c *genC03) algDigest(content []byte) string {
+	return string(algNames[c.r.Intn(len(algNames))].FromBytes(content))
+}
+
+// algOp draws a blob operation under one of the three digest algorithms: a push (right, or
+// with the digest of another content / of another algorithm's length, or a wrong size), the
+// start of an upload, or a read / resolve / range / delete / mount of a content under the
+// digest of a random algorithm (so also: stored under one algorithm, asked for under another).
+func (c *genC03) algOp() memsim.Op {
+	repo := c.g.Repos[c.r.Intn(len(c.g.Repos))]
+	content := c.g.Contents[c.r.Intn(len(c.g.Contents))]
+	d := c.algDigest(content)
+	p := c.r.Intn(20)
+	if p >= 9 && c.r.Intn(4) != 0 {
+		// mostly something that is there
+		if br, bd, ok := c.liveBlob(); ok {
+			repo, d = br, bd
+			content = make([]byte, c.blobLen(br, bd))
+		}
+	}
+	if p >= 9 && p < 14 && c.r.Intn(3) == 0 {
+		// a manifest by the digest of its content under a random algorithm
+		var ms []memsim.ManRef
+		for _, i := range c.r.Perm(len(c.g.Repos)) {
+			if r := c.g.Repos[i]; len(c.g.Manifests[r]) > 0 {
+				repo, ms = r, c.g.Manifests[r]
+				break
+			}
+		}
+		if len(ms) > 0 {
+			kind := "GetManifest"
+			if p >= 12 {
+				kind = "ResolveManifest"
+			}
+			return memsim.Op{Kind: kind, Repo: repo, Digest: c.algDigest(ms[c.r.Intn(len(ms))].Content)}
+		}
+	}
+	switch {
+	case p < 7:
+		de := &memsim.Desc{Media: "application/octet-stream", Digest: d, Size: int64(len(content))}
+		switch c.r.Intn(12) {
+		case 0:
+			de.Digest = c.algDigest(append([]byte("x"), content...))
+		case 1:
+			de.Size++
+		}
+		return memsim.Op{Kind: "PushBlob", Repo: repo, Desc: de, Content: content}
+	case p < 9:
+		return memsim.Op{Kind: "PushBlobChunked", Repo: repo, Hint: int64(c.r.Intn(2))}
+	case p < 12:
+		return memsim.Op{Kind: "GetBlob", Repo: repo, Digest: d}
+	case p < 14:
+		return memsim.Op{Kind: "ResolveBlob", Repo: repo, Digest: d}
+	case p < 16:
+		n := int64(len(content))
+		g0 := []int64{0, 1, n / 2, n - 1, n}
+		g1 := []int64{-1, 1, n/2 + 1, n - 1, n, n + 1}
+		return memsim.Op{Kind: "GetBlobRange", Repo: repo, Digest: d, O0: g0[c.r.Intn(len(g0))], O1: g1[c.r.Intn(len(g1))]}
+	case p < 18:
+		return memsim.Op{Kind: "MountBlob", From: repo, Repo: c.g.Repos[c.r.Intn(len(c.g.Repos))], Digest: d}
+	default:
+		return memsim.Op{Kind: "DeleteBlob", Repo: repo, Digest: d}
+	}
+}
+
+// listOp draws a listing (mostly from the beginning).
+func (c *genC03) listOp() memsim.Op {
+	start := ""
+	if c.r.Intn(4) == 0 {
+		start = []string{"a", "latest", "m", "t", c.g.Tags[0], c.g.Repos[0]}[c.r.Intn(6)]
+	}
+	if c.r.Intn(3) == 0 {
+		return memsim.Op{Kind: "Repositories", Start: start}
+	}
+	repo := c.g.Repos[c.r.Intn(len(c.g.Repos))]
+	var withTags []string
+	for _, r := range c.g.Repos {
+		if len(c.g.TagsSet[r]) > 0 {
+			withTags = append(withTags, r)
+		}
+	}
+	if len(withTags) > 0 && c.r.Intn(5) != 0 {
+		repo = withTags[c.r.Intn(len(withTags))]
+	}
+	return memsim.Op{Kind: "Tags", Repo: repo, Start: start}
+}
+
+// tagOp pushes a small manifest under a tag the repository does not have yet (when there is one).
+func (c *genC03) tagOp() memsim.Op {
+	repo := c.g.Repos[c.r.Intn(len(c.g.Repos))]
+	tag := c.g.Tags[c.r.Intn(len(c.g.Tags))]
+	for _, t := range c.g.Tags {
+		have := false
+		for _, x := range c.g.TagsSet[repo] {
+			have = have || x == t
+		}
+		if !have {
+			tag = t
+			break
+		}
+	}
+	return memsim.Op{Kind: "PushManifest", Repo: repo, Tag: tag, Content: c.g.Contents[c.r.Intn(len(c.g.Contents))], Media: manifestMedia[c.r.Intn(len(manifestMedia))]}
+}
+
 
 func validDigest(d string) bool { return digest.Digest(d).Validate() == nil }
 
@@ -360,6 +484,9 @@ func (c *genC03) sessionOp() (memsim.Op, bool) {
 	case p < 9:
 		return memsim.Op{Kind: "WSize", W: i}, true
 	case p < 11:
+		if c.alg {
+			return memsim.Op{Kind: "WCommit", W: i, Digest: c.algDigest(w.Written)}, true
+		}
 		return memsim.Op{Kind: "WCommit", W: i, Digest: memsim.Sha(w.Written)}, true
 	default:
 		return memsim.Op{Kind: "WID", W: i}, true
@@ -375,6 +502,14 @@ func (c *genC03) next() memsim.Op {
 			c.queue = c.queue[1:]
 		} else if so, ok := c.sessionOp(); ok && c.r.Intn(4) == 0 {
 			o = so
+		} else if c.alg && c.r.Intn(5) < 2 {
+			o = c.algOp()
+		} else if c.listy && c.r.Intn(3) == 0 {
+			if c.r.Intn(2) == 0 {
+				o = c.tagOp()
+			} else {
+				o = c.listOp()
+			}
 		} else if c.r.Intn(4) == 0 {
 			var ok bool
 			if o, ok = c.special(); !ok {
@@ -430,9 +565,12 @@ func (c *genC03) track(o memsim.Op, res memsim.Result) {
 	}
 }
 
-func genHistory(r *rand.Rand, st Stack, length int) history {
-	c := newGenC03(r, false)
+func genHistory(r *rand.Rand, st Stack, length int, flavour string) history {
+	c := newGenC03(r, false, flavour)
 	h := history{Stack: st, Stream: "main"}
+	if flavour == "alg" {
+		h.Backend = "algstore"
+	}
 	for i := 0; i < length; i++ {
 		o := c.next()
 		if !namesOK(o) {
@@ -440,7 +578,56 @@ func genHistory(r *rand.Rand, st Stack, length int) history {
 		}
 		h.Ops = append(h.Ops, o)
 	}
+	h.Passes = genPasses(r, h.Ops, c.listy)
 	return h
+}
+
+// genPasses decides how the iterators of the listing operations are iterated: about half of
+// them once (as every caller did before), the others again after a complete pass, after a pass
+// stopped at the k-th yield, or both.  Referrers (whose client-side iterator is a slice) is
+// only ever stopped and then completed: its request belongs to the call, not to a pass.
+func genPasses(r *rand.Rand, ops []memsim.Op, often bool) map[int][]int {
+	out := map[int][]int{}
+	for i, o := range ops {
+		if !isIterOp(o.Kind) || (!often && r.Intn(2) == 0) || (often && r.Intn(5) == 0) {
+			continue
+		}
+		k := 1 + r.Intn(4)
+		if o.Kind == "Referrers" {
+			out[i] = []int{k, 0}
+			continue
+		}
+		switch r.Intn(4) {
+		case 0:
+			out[i] = []int{0, 0}
+		case 1:
+			out[i] = []int{k, 0}
+		case 2:
+			out[i] = []int{0, k, 0}
+		default:
+			out[i] = []int{k, 1 + r.Intn(4), 0, 0}
+		}
+	}
+	if len(out) == 0 {
+		return nil
+	}
+	return out
+}
+
+// listyStack: small pages, so that listings take several requests.
+func listyStack(r *rand.Rand) Stack {
+	st := genStack(r)
+	st.Page = 1 + r.Intn(3)
+	if st.Opts1.MaxPage > 0 && st.Opts1.MaxPage < st.Page && r.Intn(6) != 0 {
+		st.Opts1.MaxPage = 0
+	}
+	if st.Hops == 2 {
+		st.Page2 = 1 + r.Intn(3)
+		if st.Opts2.MaxPage > 0 && st.Opts2.MaxPage < st.Page2 && r.Intn(6) != 0 {
+			st.Opts2.MaxPage = 0
+		}
+	}
+	return st
 }
 
 // genStack draws what stands between the caller and the registry.
